@@ -289,6 +289,49 @@ def check_ws_history(variant: int, first_extra: bool, second_extra: bool, frames
     return got == want and c.ws_headers == {"h": "1"}
 
 
+def check_ws_constructed_client(variant: int, http_headers: bool, ws_headers: bool, origin: bool, payload: bool) -> bool:
+    """
+    post: _
+    """
+    # a client built by its real constructor: the socket is opened with the configured ws_headers / ws_origin only (the headers of the
+    # HTTP side are not websocket handshake headers), and connection_init carries the configured payload
+    v = list(VARIANTS)[pick(variant, len(VARIANTS))]
+    mod, cls, tracer = VARIANTS[v]
+    hh, wh, og, pl = (True if http_headers else False), (True if ws_headers else False), (True if origin else False), (True if payload else False)
+    from harness._h import NoTracing
+
+    with NoTracing():
+        kw = {"url": "http://x/graphql", "ws_url": "ws://x"}
+        if hh:
+            kw["headers"] = {"Authorization": "http-token"}
+        if wh:
+            kw["ws_headers"] = {"W": "1"}
+        if og:
+            kw["ws_origin"] = "https://origin.example"
+        if pl:
+            kw["ws_connection_init_payload"] = {"token": "t"}
+        if tracer:
+            kw["tracer"] = FakeTracer()
+        try:
+            c = cls(**kw)
+        except TypeError:
+            return False
+        rec = []
+        ws = FakeWS(LazyFrames([K_ACK, K_NEXT, K_COMPLETE], 3))
+        old = mod.ws_connect
+        mod.ws_connect = FakeConnect(ws, rec)
+        try:
+            out, err = drive(c.execute_ws("subscription S { a }", "S", None))
+        finally:
+            mod.ws_connect = old
+        if err is not None or out != [{"a": 1}] or len(rec) != 1:
+            return False
+        kwargs = rec[0][1]
+        init = ws.sent[0] if ws.sent else {}
+        return (kwargs.get("extra_headers") == ({"W": "1"} if wh else {}) and kwargs.get("origin") == ("https://origin.example" if og else None)
+                and init == ({"type": "connection_init", "payload": {"token": "t"}} if pl else {"type": "connection_init"}))
+
+
 def twin_two_yields_then_error(k0: int, k1: int, k2: int, k3: int, k4: int, k5: int, n: int, init_payload: bool, var_kind: int) -> bool:
     """
     pre: 0 <= n <= NMAX
